@@ -4,37 +4,44 @@
 (*  - the reader goroutine (Conn.ReadFrom -> Channel.WritePacket) holds the read lock across a        *)
 (*    blocking send into the bounded package queue                                                    *)
 (*  - NextPackage holds the read lock across its select                                               *)
-(*  - Close: Logout (send, NextPackage with a timeout) ; Lock ; mark closed ; drain ; Unlock           *)
-(* CLOSESIGNAL = FALSE is the pinned design.  CLOSESIGNAL = TRUE is a repaired design in which Close   *)
-(* first raises a signal that aborts the reader's blocked push and a blocked NextPackage.              *)
+(*  - Close: entry check ; Logout (send, NextPackage with a timeout) ; signal ; Lock ; re-check ;      *)
+(*    mark closed ; drain ; Unlock                                                                     *)
+(* CLOSESIGNAL = FALSE is the pinned design.  CLOSESIGNAL = TRUE is the repaired design (the code      *)
+(* since fix 08d035b) in which Close first raises a signal that aborts the reader's blocked push and   *)
+(* a blocked NextPackage.                                                                              *)
+(* Closers is the set of goroutines calling Close on the channel (one, or two that overlap: a channel  *)
+(* closed by its owner while Conn.Close closes every channel).  RECHECK = TRUE is the code: behind the *)
+(* write lock Close looks at `closed` again and returns "closed"; FALSE is the variant without that    *)
+(* second look, where the later closer closes the already cleared queues ("panic").                    *)
 (* External stimuli (peer packets, calls, cancel) are recorded in `hist` for replay on the real code.  *)
 EXTENDS Integers, Sequences, FiniteSets, TLC, Json
 CONSTANTS K,            \* capacity of packageCh
           NPKG,         \* packages the peer sends (response abandoned by the consumer)
           PEERANSWERS,  \* does the peer answer the logout
-          CLOSESIGNAL, GEN
+          CLOSESIGNAL, GEN, Closers, RECHECK
 
 VARIABLES rd,        \* goroutines holding the read lock
-          wr,        \* closer holds the write lock
-          wwait,     \* closer waits for the write lock (blocks new readers)
+          wr,        \* a closer holds the write lock
+          wwait,     \* closers waiting for the write lock (a waiting writer blocks new readers)
           closing,   \* close signal raised (only with CLOSESIGNAL)
-          closed, pch, peerLeft, logoutSent, logoutAnswered,
+          closed, pch, peerLeft,
+          logoutSent, logoutAnswered,       \* counters: every closer sends its own logout
           pcR, pcC, pcX, ctxC, result, hist
 vars == <<rd, wr, wwait, closing, closed, pch, peerLeft, logoutSent, logoutAnswered, pcR, pcC, pcX, ctxC, result, hist>>
 
 H(e) == hist' = IF GEN THEN Append(hist, e) ELSE hist
 NoH == UNCHANGED hist
-CanRLock == ~wr /\ ~wwait
+CanRLock == ~wr /\ wwait = {}
 
-Init == /\ rd = {} /\ wr = FALSE /\ wwait = FALSE /\ closing = FALSE /\ closed = FALSE /\ pch = <<>>
-        /\ peerLeft = NPKG /\ logoutSent = FALSE /\ logoutAnswered = FALSE
-        /\ pcR = "read" /\ pcC = "idle" /\ pcX = "idle" /\ ctxC = "live"
-        /\ result = [c |-> "none", x |-> "none"] /\ hist = <<>>
+Init == /\ rd = {} /\ wr = FALSE /\ wwait = {} /\ closing = FALSE /\ closed = FALSE /\ pch = <<>>
+        /\ peerLeft = NPKG /\ logoutSent = 0 /\ logoutAnswered = 0
+        /\ pcR = "read" /\ pcC = "idle" /\ pcX = [x \in Closers |-> "idle"] /\ ctxC = "live"
+        /\ result = [c \in {"c"} \cup Closers |-> "none"] /\ hist = <<>>
 
 \* ---------- reader goroutine: one package per packet
-R_Read == /\ pcR = "read" /\ (peerLeft > 0 \/ (logoutSent /\ PEERANSWERS /\ ~logoutAnswered))
+R_Read == /\ pcR = "read" /\ (peerLeft > 0 \/ (PEERANSWERS /\ logoutAnswered < logoutSent))
           /\ IF peerLeft > 0 THEN peerLeft' = peerLeft - 1 /\ UNCHANGED logoutAnswered /\ H([op |-> "peer"])
-             ELSE logoutAnswered' = TRUE /\ UNCHANGED peerLeft /\ NoH
+             ELSE logoutAnswered' = logoutAnswered + 1 /\ UNCHANGED peerLeft /\ NoH
           /\ pcR' = "rlock"
           /\ UNCHANGED <<rd, wr, wwait, closing, closed, pch, logoutSent, pcC, pcX, ctxC, result>>
 R_RLock == /\ pcR = "rlock" /\ CanRLock /\ rd' = rd \cup {"R"}
@@ -70,42 +77,64 @@ C_Unlock == /\ pcC = "unlock" /\ rd' = rd \ {"C"} /\ pcC' = "done"
 Cancel == /\ ctxC = "live" /\ pcC # "idle" /\ ctxC' = "cancelled" /\ H([op |-> "cancel"])
           /\ UNCHANGED <<rd, wr, wwait, closing, closed, pch, peerLeft, logoutSent, logoutAnswered, pcR, pcC, pcX, result>>
 
-\* ---------- closer: Channel.Close on channel 0
-X_Start == /\ pcX = "idle" /\ pcX' = "send_rlock" /\ H([op |-> "close"])
-           /\ UNCHANGED <<rd, wr, wwait, closing, closed, pch, peerLeft, logoutSent, logoutAnswered, pcR, pcC, ctxC, result>>
-X_SendRLock == /\ pcX = "send_rlock" /\ CanRLock /\ rd' = rd \cup {"X"} /\ pcX' = "send"
-               /\ UNCHANGED <<wr, wwait, closing, closed, pch, peerLeft, logoutSent, logoutAnswered, pcR, pcC, ctxC, result, hist>>
-X_Send == /\ pcX = "send" /\ logoutSent' = TRUE /\ rd' = rd \ {"X"} /\ pcX' = "np_rlock"
-          /\ UNCHANGED <<wr, wwait, closing, closed, pch, peerLeft, logoutAnswered, pcR, pcC, ctxC, result, hist>>
-X_NpRLock == /\ pcX = "np_rlock" /\ CanRLock /\ rd' = rd \cup {"X"} /\ pcX' = "np_wait"
-             /\ UNCHANGED <<wr, wwait, closing, closed, pch, peerLeft, logoutSent, logoutAnswered, pcR, pcC, ctxC, result, hist>>
-X_NpRecv == /\ pcX = "np_wait" /\ pch # <<>> /\ pch' = Tail(pch) /\ rd' = rd \ {"X"} /\ pcX' = "signal"
-            /\ UNCHANGED <<wr, wwait, closing, closed, peerLeft, logoutSent, logoutAnswered, pcR, pcC, ctxC, result, hist>>
-X_NpTimeout == /\ pcX = "np_wait" /\ pch = <<>> /\ rd' = rd \ {"X"} /\ pcX' = "signal"   \* the 1-minute logout context expires
-               /\ UNCHANGED <<wr, wwait, closing, closed, pch, peerLeft, logoutSent, logoutAnswered, pcR, pcC, ctxC, result, hist>>
-X_Signal == /\ pcX = "signal" /\ closing' = CLOSESIGNAL /\ pcX' = "lock"
-            /\ UNCHANGED <<rd, wr, wwait, closed, pch, peerLeft, logoutSent, logoutAnswered, pcR, pcC, ctxC, result, hist>>
-X_LockWait == /\ pcX = "lock" /\ ~wwait /\ wwait' = TRUE
-              /\ UNCHANGED <<rd, wr, closing, closed, pch, peerLeft, logoutSent, logoutAnswered, pcR, pcC, pcX, ctxC, result, hist>>
-X_Lock == /\ pcX = "lock" /\ wwait /\ rd = {} /\ wr' = TRUE /\ wwait' = FALSE /\ pcX' = "mark"
-          /\ UNCHANGED <<rd, closing, closed, pch, peerLeft, logoutSent, logoutAnswered, pcR, pcC, ctxC, result, hist>>
-X_Mark == /\ pcX = "mark" /\ closed' = TRUE /\ pch' = <<>> /\ wr' = FALSE /\ pcX' = "done"
-          /\ result' = [result EXCEPT !.x = "returned"]
-          /\ UNCHANGED <<rd, wwait, closing, peerLeft, logoutSent, logoutAnswered, pcR, pcC, ctxC, hist>>
+\* ---------- closers: Channel.Close on channel 0
+Go(x, l) == pcX' = [pcX EXCEPT ![x] = l]
+\* entry check under the read lock: an already closed channel is reported at once
+X_Start(x) == /\ pcX[x] = "idle" /\ CanRLock /\ H([op |-> "close"])
+              /\ IF closed THEN Go(x, "done") /\ result' = [result EXCEPT ![x] = "closed"]
+                 ELSE Go(x, "send_rlock") /\ UNCHANGED result
+              /\ UNCHANGED <<rd, wr, wwait, closing, closed, pch, peerLeft, logoutSent, logoutAnswered, pcR, pcC, ctxC>>
+X_SendRLock(x) == /\ pcX[x] = "send_rlock" /\ CanRLock /\ rd' = rd \cup {x}
+                  /\ IF closed THEN Go(x, "np_closed") ELSE Go(x, "send")   \* SendPackage on a closed channel: ErrChannelClosed
+                  /\ UNCHANGED <<wr, wwait, closing, closed, pch, peerLeft, logoutSent, logoutAnswered, pcR, pcC, ctxC, result, hist>>
+X_Send(x) == /\ pcX[x] = "send" /\ logoutSent' = logoutSent + 1 /\ rd' = rd \ {x} /\ Go(x, "np_rlock")
+             /\ UNCHANGED <<wr, wwait, closing, closed, pch, peerLeft, logoutAnswered, pcR, pcC, ctxC, result, hist>>
+X_NpRLock(x) == /\ pcX[x] = "np_rlock" /\ CanRLock /\ rd' = rd \cup {x}
+                /\ IF closed THEN Go(x, "np_closed") ELSE Go(x, "np_wait")
+                /\ UNCHANGED <<wr, wwait, closing, closed, pch, peerLeft, logoutSent, logoutAnswered, pcR, pcC, ctxC, result, hist>>
+X_NpRecv(x) == /\ pcX[x] = "np_wait" /\ pch # <<>> /\ pch' = Tail(pch) /\ rd' = rd \ {x} /\ Go(x, "signal")
+               /\ UNCHANGED <<wr, wwait, closing, closed, peerLeft, logoutSent, logoutAnswered, pcR, pcC, ctxC, result, hist>>
+X_NpTimeout(x) == /\ pcX[x] = "np_wait" /\ pch = <<>> /\ rd' = rd \ {x} /\ Go(x, "signal")   \* the 1-minute logout context expires
+                  /\ UNCHANGED <<wr, wwait, closing, closed, pch, peerLeft, logoutSent, logoutAnswered, pcR, pcC, ctxC, result, hist>>
+\* the other closer's signal also ends this closer's wait for the logout answer (NextPackage watches it)
+X_NpClosing(x) == /\ CLOSESIGNAL /\ pcX[x] = "np_wait" /\ pch = <<>> /\ closing /\ rd' = rd \ {x} /\ Go(x, "signal")
+                  /\ UNCHANGED <<wr, wwait, closing, closed, pch, peerLeft, logoutSent, logoutAnswered, pcR, pcC, ctxC, result, hist>>
+X_NpClosed(x) == /\ pcX[x] = "np_closed" /\ rd' = rd \ {x} /\ Go(x, "signal")
+                 /\ UNCHANGED <<wr, wwait, closing, closed, pch, peerLeft, logoutSent, logoutAnswered, pcR, pcC, ctxC, result, hist>>
+X_Signal(x) == /\ pcX[x] = "signal" /\ closing' = (closing \/ CLOSESIGNAL) /\ Go(x, "lock")
+               /\ UNCHANGED <<rd, wr, wwait, closed, pch, peerLeft, logoutSent, logoutAnswered, pcR, pcC, ctxC, result, hist>>
+X_LockWait(x) == /\ pcX[x] = "lock" /\ x \notin wwait /\ wwait' = wwait \cup {x}
+                 /\ UNCHANGED <<rd, wr, closing, closed, pch, peerLeft, logoutSent, logoutAnswered, pcR, pcC, pcX, ctxC, result, hist>>
+X_Lock(x) == /\ pcX[x] = "lock" /\ x \in wwait /\ rd = {} /\ ~wr /\ wr' = TRUE /\ wwait' = wwait \ {x} /\ Go(x, "mark")
+             /\ UNCHANGED <<rd, closing, closed, pch, peerLeft, logoutSent, logoutAnswered, pcR, pcC, ctxC, result, hist>>
+\* behind the write lock: closed concurrently?  Otherwise mark closed and drain the queues
+X_Mark(x) == /\ pcX[x] = "mark" /\ wr' = FALSE
+             /\ IF closed
+                THEN IF RECHECK THEN Go(x, "done") /\ result' = [result EXCEPT ![x] = "closed"] /\ UNCHANGED <<closed, pch>>
+                     ELSE Go(x, "panic") /\ result' = [result EXCEPT ![x] = "panic"] /\ UNCHANGED <<closed, pch>>   \* close of nil channel
+                ELSE closed' = TRUE /\ pch' = <<>> /\ Go(x, "done") /\ result' = [result EXCEPT ![x] = "returned"]
+             /\ UNCHANGED <<rd, wwait, closing, peerLeft, logoutSent, logoutAnswered, pcR, pcC, ctxC, hist>>
 
 Next == R_Read \/ R_RLock \/ R_Push \/ R_PushAbort \/ R_RUnlock
      \/ C_Start \/ C_RLock \/ C_Recv \/ C_Ctx \/ C_Closing \/ C_Closed \/ C_Unlock \/ Cancel
-     \/ X_Start \/ X_SendRLock \/ X_Send \/ X_NpRLock \/ X_NpRecv \/ X_NpTimeout \/ X_Signal \/ X_LockWait \/ X_Lock \/ X_Mark
+     \/ \E x \in Closers : X_Start(x) \/ X_SendRLock(x) \/ X_Send(x) \/ X_NpRLock(x) \/ X_NpRecv(x) \/ X_NpTimeout(x)
+                           \/ X_NpClosing(x) \/ X_NpClosed(x) \/ X_Signal(x) \/ X_LockWait(x) \/ X_Lock(x) \/ X_Mark(x)
 Fair == /\ WF_vars(R_Read) /\ WF_vars(R_RLock) /\ WF_vars(R_Push) /\ WF_vars(R_PushAbort) /\ WF_vars(R_RUnlock)
         /\ WF_vars(C_RLock) /\ WF_vars(C_Recv) /\ WF_vars(C_Ctx) /\ WF_vars(C_Closing) /\ WF_vars(C_Closed) /\ WF_vars(C_Unlock)
-        /\ WF_vars(X_SendRLock) /\ WF_vars(X_Send) /\ WF_vars(X_NpRLock) /\ WF_vars(X_NpRecv) /\ WF_vars(X_NpTimeout)
-        /\ WF_vars(X_Signal) /\ WF_vars(X_LockWait) /\ WF_vars(X_Lock) /\ WF_vars(X_Mark)
+        /\ \A x \in Closers :
+             /\ WF_vars(X_SendRLock(x)) /\ WF_vars(X_Send(x)) /\ WF_vars(X_NpRLock(x)) /\ WF_vars(X_NpRecv(x)) /\ WF_vars(X_NpTimeout(x))
+             /\ WF_vars(X_NpClosing(x)) /\ WF_vars(X_NpClosed(x))
+             /\ WF_vars(X_Signal(x)) /\ WF_vars(X_LockWait(x)) /\ WF_vars(X_Lock(x)) /\ WF_vars(X_Mark(x))
 Spec == Init /\ [][Next]_vars /\ Fair
 
-C13_CloseReturns == (pcX = "send_rlock") ~> (pcX = "done")
+C13_CloseReturns == \A x \in Closers : (pcX[x] = "send_rlock") ~> (pcX[x] \in {"done", "panic"})
 C13_RecvReturnsAfterCancel == (pcC \in {"rlock", "wait"} /\ ctxC = "cancelled") ~> (pcC = "done")
 C13_NoDeliveryAfterClose == closed => pch = <<>>
 C13_ClosedReported == (pcC = "ret_closed") => closed
+\* overlapping Close calls: exactly one of them tears the channel down, the others report "closed", none crashes
+C13_NoCrash == \A x \in Closers : pcX[x] # "panic"
+C13_OneTeardown == Cardinality({x \in Closers : result[x] = "returned"}) <= 1
+First == CHOOSE x \in Closers : TRUE
 \* behaviour generation: print the external stimuli of every complete behaviour prefix
-GenPrint == (GEN /\ Len(hist) > 0 /\ (pcX = "done" \/ pcX = "lock")) => PrintT(<<"SCN", ToJson([k |-> K, answers |-> PEERANSWERS, ops |-> hist])>>)
+GenPrint == (GEN /\ Len(hist) > 0 /\ (pcX[First] = "done" \/ pcX[First] = "lock")) => PrintT(<<"SCN", ToJson([k |-> K, answers |-> PEERANSWERS, ops |-> hist])>>)
 =============================================================================
